@@ -405,7 +405,12 @@ func stack() string {
 func (s *Sim) shutdown() {
 	s.simEnd = s.Now()
 	for _, name := range s.sortedClients() {
+		s.mu.Lock()
 		cl := s.clients[name]
+		s.mu.Unlock()
+		if cl == nil {
+			continue // closed and forgotten by the scenario meanwhile
+		}
 		done := make(chan struct{})
 		go func() { s.CloseCl(cl, s.P.Knob("block_rebalance", 0) != 0); close(done) }()
 		select {
